@@ -12,7 +12,7 @@ def cb(s):
 
 
 def run_abi(ck, recs):
-    n = {"quick": 1200, "thorough": 30000}[ck.tier]
+    n = {"quick": 1200, "thorough": 15000}[ck.tier]
     out = os.path.join(ck.work, "abi.jsonl")
     rc, log = ck.go_test_overlay("ssa/abi", {"zz_verif_test.go": os.path.join(HD, "abi_verif_test.go")},
                                  env={"VERIF_OUT": out, "VERIF_N": str(n)})
@@ -49,7 +49,7 @@ def run_itab(ck, recs):
         "replace github.com/goplus/llgo/runtime => %s/runtime\n" % vlib.REPO)
     shutil.copy(os.path.join(vlib.REPO, "runtime", "go.sum"), os.path.join(d, "go.sum"))
     out = os.path.join(ck.work, "itab.jsonl")
-    n = {"quick": 2000, "thorough": 40000}[ck.tier]
+    n = {"quick": 2000, "thorough": 15000}[ck.tier]
     rc, log = vlib.sh(["go", "run", "."], cwd=d, env=vlib.goenv({"VERIF_OUT": out, "VERIF_N": str(n), "VERIF_SEED": str(ck.seed)}), timeout=900)
     if rc != 0 or not os.path.exists(out):
         ck.correspondence_broken("harness:z_face.go", log[-2500:])
